@@ -313,7 +313,7 @@ package replicaset
   ensures (and (not (= result vnil)) (= (|F!types/replicaset.filterSubscription!filterParent| result) {parent}))
 @*/
 /*@ func types/replicaset.BuildController
-  props C20
+  props C20 C11
   theory replicasettyped
   ghost perr : V := vnil
   at call(NewController) assert [an-untyped-controller-on-the-same-context-log-and-client] (and (= $0 {ctx}) (= $1 {log}) (= $2 {client}))
